@@ -43,7 +43,7 @@ REQUIRED = {
 
 
 def run(ctx):
-    for fn in (r1_shortcut, r2_flag_table, r3_symmetry, r4_regex_facts, r6_verdict_sources, r7_regex_call_shape, r8_wildcard_bounds, r9_quote_removal, r10_comparison_does_not_write_state, r11_run_state_is_forwarded):
+    for fn in (r1_shortcut, r2_flag_table, r3_symmetry, r4_regex_facts, r6_verdict_sources, r7_regex_call_shape, r8_wildcard_bounds, r9_quote_removal, r10_comparison_does_not_write_state, r11_run_state_is_forwarded, r12_got_want_roles):
         ctx.rep.rule(fn, ctx)
 
 
@@ -827,12 +827,76 @@ def r11_run_state_is_forwarded(ctx, rule='C05.R11'):
     rep.floor(rule, 'calls of run-state taking checker functions', n, 10)
 
 
+def _role_of_name(nm):
+    low = nm.lower()
+    g, w = 'got' in low, 'want' in low
+    return 'got' if g and not w else ('want' if w and not g else None)
+
+
+def r12_got_want_roles(ctx, rule='C05.R12'):
+    """ROLE-AGREE: the relation is not symmetric ('...' and <BLANKLINE> have their meaning on the want side only, the traceback pattern is applied to
+    the want, reports say Expected/Got).  At every call of a checker function whose parameters are named after the two sides, an argument that is
+    named after the OTHER side (got where want is expected or the reverse) is a swap."""
+    rep = ctx.rep
+    sided = {}
+    for fn in ctx.prog.funcs.values():
+        if fn.module.name != 'xdoctest.checker':
+            continue
+        names = [a.arg for a in fn.node.args.posonlyargs + fn.node.args.args]
+        off = 1 if fn.cls is not None else 0
+        roles = {i - off: _role_of_name(nm) for i, nm in enumerate(names) if i >= off and _role_of_name(nm)}
+        if len(set(roles.values())) == 2:
+            sided[fn.qualname] = (fn, names[off:], roles)
+    rep.floor(rule, 'checker functions with a got side and a want side', len(sided), 5)
+    n = 0
+    for func in ctx.prog.funcs.values():
+        if not func.module.name.startswith('xdoctest') or func.module.name.startswith('xdoctest._tokenize'):
+            continue
+        for c in walk_scope(func.node):
+            if not isinstance(c, ast.Call):
+                continue
+            r = ctx.res.resolve_call(func, c)
+            if r[0] not in ('repo', 'class') or (r[0] == 'repo' and len(r[1]) != 1):
+                continue
+            callee = r[1][0] if r[0] == 'repo' else r[1].methods.get('__init__') if hasattr(r[1], 'methods') else None
+            if callee is None or callee.qualname not in sided:
+                continue
+            fn, pnames, roles = sided[callee.qualname]
+            if any(isinstance(a, ast.Starred) for a in c.args) or any(k.arg is None for k in c.keywords):
+                continue
+            bound = {i: a for i, a in enumerate(c.args)}
+            for k in c.keywords:
+                if k.arg in pnames:
+                    bound[pnames.index(k.arg)] = k.value
+            for i, role in sorted(roles.items()):
+                if i not in bound:
+                    continue
+                arg = bound[i]
+                seen = set()
+                for x in ast.walk(arg):
+                    rr = _role_of_name(x.id) if isinstance(x, ast.Name) else (_role_of_name(x.attr) if isinstance(x, ast.Attribute) else None)
+                    if rr:
+                        seen.add(rr)
+                if not seen:
+                    continue
+                n += 1
+                ok = role in seen
+                rep.ob(rule, ctx.loc(func, arg), '%s(... %s=%s ...)' % (callee.name, pnames[i], ctx.src(arg, 40)), ok,
+                       'the %s side is handed the %s text' % (role, role) if ok else
+                       'the `%s` parameter of %s receives `%s`, which is the %s side: the comparison is not symmetric (ellipsis and <BLANKLINE> are honoured in the want only), '
+                       'so wants that rely on them stop matching and a got that contains them starts to' % (pnames[i], callee.name, ctx.src(arg, 40), 'want' if role == 'got' else 'got'),
+                       anchor=func.qualname)
+    rep.floor(rule, 'sided arguments at checker call sites', n, 12)
+
+
 # ---------------------------------------------------------------------------
 from ..selftest import fire, silent      # noqa: E402
 
 CK = 'xdoctest/checker.py'
 US = 'xdoctest/utils/util_str.py'
 VARIANTS = [
+    fire('repr-fallback-swaps-sides', 'C05.R12', (CK, "                flag = check_output(got, want, runstate)\n", "                flag = check_output(want, got, runstate)\n")),
+    fire('ellipsis-matcher-sides-swapped', 'C05.R12', (CK, "        if _ellipsis_match(got, want):\n", "        if _ellipsis_match(want, got):\n")),
     fire('repr-fallback-compares-under-default-state', 'C05.R11', (CK, "                flag = check_output(got, want, runstate)\n", "                flag = check_output(got, want)\n")),
     fire('exception-message-compared-under-default-state', 'C05.R11', (CK, "    flag = check_output(exc_got, exc_want, runstate)\n", "    flag = check_output(exc_got, exc_want)\n")),
     fire('diff-switches-flags-on-shared-state', 'C05.R10', (CK, "        runstate_ = runstate.to_dict()\n\n        # Don't normalize whitespaces in report for better visibility\n", "        runstate_ = runstate\n\n        # Don't normalize whitespaces in report for better visibility\n")),
